@@ -1094,3 +1094,94 @@ def check_C15(tier, seed):
     return res.finish(gate)
 
 CHECKS['C15'] = check_C15
+
+# ---------------------------------------------------------------- C14
+def check_C14(tier, seed):
+    import itertools, struct
+    from .gen import lispval as L
+    from .gen.sexp import Dot
+    res = Result('C14', tier, seed); res.pending = []
+    gate = proof_gate('C14')
+    core.build_model(); core.build_impl()
+    rng = random.Random(seed)
+    atoms = [0, 1, -1, 2, 1.0, 2.0, 2.5, 0.0, -0.0, Str(''), Str('a'), Str('ab'), 'a', 'b', ':k', ':j', None, True]
+    def gen_val(d):
+        if d <= 0 or rng.random() < 0.45: return rng.choice(atoms)
+        n = rng.choice([1, 2, 3])
+        xs = [gen_val(d - 1) for _ in range(n)]
+        if rng.random() < 0.2: return Dot(xs, rng.choice([1, 'a', Str('s'), 2.0]))
+        return xs
+    def lit(x): return 'nil' if L.is_nil(x) else ('t' if x is True else "'" + render(x))
+    def mutate(x):
+        """A value equal or nearly equal to x."""
+        if isinstance(x, list) and x:
+            y = list(x); i = rng.randrange(len(y)); y[i] = mutate(y[i]) if rng.random() < 0.7 else gen_val(1); return y
+        if isinstance(x, Dot): return Dot(list(x.items), mutate(x.tail)) if rng.random() < 0.5 else Dot([mutate(i) for i in x.items], x.tail)
+        if isinstance(x, int) and not isinstance(x, bool): return rng.choice([x, float(x), x + 1])
+        if isinstance(x, float): return rng.choice([x, int(x) if x == int(x) else x, x + 0.5])
+        return rng.choice([x, gen_val(0)])
+    items = []
+    def add(text, exp, tag): items.append((text, {'exp': exp, 'tag': tag}))
+    vals = list(atoms) + [gen_val(3) for _ in range(tier_n(tier, 60, 600))]
+    pairs = list(itertools.product(atoms, atoms))
+    for _ in range(tier_n(tier, 1500, 40000)):
+        a = rng.choice(vals); b = mutate(a) if rng.random() < 0.6 else rng.choice(vals)
+        pairs.append((a, b))
+    def t(b): return 't' if b else 'nil'
+    for a, b in pairs:
+        e = L.equal(a, b)
+        add('(list (equal %s %s) (equal %s %s))' % (lit(a), lit(b), lit(b), lit(a)), '(%s %s)' % (t(e), t(e)), 'equal-sym')
+    for a in vals:
+        add('(let ((x %s)) (list (eq x x) (equal x x) (equal x %s)))' % (lit(a), lit(a)), '(t t t)', 'refl')
+        add("(let ((x %s) (y %s)) (if (eq x y) (equal x y) t))" % (lit(a), lit(mutate(a))), 't', 'eq-implies-equal')
+    # symbols: same name, same object; make-symbol / gensym never
+    for n in ['abc', 'x', 'nil', 't', ':kw', 'a-b']:
+        add("(list (eq '%s '%s) (eq '%s (intern \"%s\")) (eq (intern \"%s\") (intern \"%s\")) (eq (make-symbol \"%s\") '%s) (eq (make-symbol \"%s\") (make-symbol \"%s\")) (equal (make-symbol \"%s\") '%s))"
+            % ((n,) * 12), '(t t t nil nil nil)' if n not in ('nil', 't') else None, 'symbols')
+    add("(let ((g (gensym))) (list (eq g (gensym)) (eq g (intern (prin1-to-string g))) (eq g g)))", '(nil nil t)', 'symbols')
+    add("(list (eq nil nil) (eq t t) (eq nil t) (eq 'a 'b) (eq :k :k) (eq :k :j) (eq nil '()) (eq 'a \"a\"))", '(t t nil nil t nil t nil)', 'symbols')
+    # hash tables: a finite map keyed by eql
+    kinds = [('1', ('i', 1)), ('2', ('i', 2)), ('1.0', ('f', 1.0)), ('2.5', ('f', 2.5)), ('0.0', ('f', 0.0)), ('-0.0', ('f', -0.0)),
+             ("'a", ('y', 'a')), ("'b", ('y', 'b')), (':k', ('y', ':k')), ('nil', ('y', 'nil')), ('t', ('y', 't')),
+             ('k1', ('o', 'k1')), ('k2', ('o', 'k2')), ('k3', ('o', 'k3')), ('k4', ('o', 'k4')), ('-1', ('i', -1)), ("(intern \"a\")", ('y', 'a'))]
+    prelude = '(setq h (make-hash-table)) (setq h2 (make-hash-table)) (setq k1 (concat "a" "")) (setq k2 (concat "a" "")) (setq k3 (list 1 2)) (setq k4 (list 1 2))'
+    def keyid(k):
+        if k[0] == 'f': return ('f', struct.pack('>d', k[1]))
+        return k
+    for _ in range(tier_n(tier, 800, 20000)):
+        n = rng.choice([1, 2, 4, 8, 12])
+        m = {'h': {}, 'h2': {}}
+        forms = []; exp = []
+        for i in range(n):
+            tb = rng.choice(['h', 'h', 'h', 'h2'])
+            kt, kid = rng.choice(kinds)
+            if rng.random() < 0.55:
+                v = rng.choice([i, None, "'v%d" % i])
+                forms.append('(puthash %s %s %s)' % (kt, 'nil' if v is None else v, tb)); exp.append('nil')
+                m[tb][keyid(kid)] = v
+            else:
+                forms.append('(gethash %s %s)' % (kt, tb))
+                v = m[tb].get(keyid(kid))
+                exp.append('nil' if v is None else str(v).lstrip("'"))
+        add('%s (list %s)' % (prelude, ' '.join(forms)), '(' + ' '.join(exp) + ')', 'hash')
+    add("(gethash 1 5)", 'E', 'hash-type'); add("(puthash 1 2 'x)", 'E', 'hash-type'); add("(gethash 1 (make-hash-table))", 'nil', 'hash')
+    rows = run_exprs(res, items, per_case=20)
+    nv = 0
+    distinct = set()
+    for text, meta, im, mo in rows:
+        if im is None or meta['exp'] is None: continue
+        got = im['payload'] if im['kind'] == 'V' else im['kind']
+        distinct.add((meta['tag'], got[:40], text[:30]))
+        if got != meta['exp']:
+            nv += 1
+            if nv <= 8: res.violation('equality', {'expr': text, 'expected': meta['exp'], 'impl': im, 'class': meta['tag']})
+    res.cov['distinct_nontrivial'] = len(distinct)
+    res.cov['rule'] = ('pairs of data values (all pairs of %d atoms incl. 1/1.0, 0.0/-0.0, strings, symbols, keywords, nil, t; random nested / dotted lists and near-equal mutations) under equal in both orders; '
+                       'reflexivity and eq-implies-equal through variables; interning / make-symbol / gensym identity; hash-table histories of up to 12 puthash/gethash over two tables with symbol, integer, float, '
+                       'string and list keys (heap keys are distinct objects held in variables); oracle: structural equality and a Python dict keyed by eql; correspondence with the model where identity is expressible' % len(atoms))
+    res.cov['samples'] = [rows[0][0], rows[len(rows) // 2][0][:400], rows[-5][0][:400]]
+    for d in res.pending:
+        res.violation('disagreement', d, no_input=not oracle_confirms(d))
+    return res.finish(gate)
+
+CHECKS['C14'] = check_C14
